@@ -4,7 +4,7 @@
    what the audit and the end-of-script node count detect (known findings K3, K5). *)
 From Coq Require Import List Arith Bool.
 Import ListNotations.
-From Sodium Require Import Gc GcExactBase GcExactInv GcExact GcHeap.
+From Sodium Require Import Gc GcExactBase GcExactInv GcExact GcHeap Heap HeapFacts.
 
 (* once no handle is held, ONE collection frees every object: cycles, self-loops, multi-edges, whether
    or not the graph ever processed anything *)
@@ -39,3 +39,33 @@ Example C07_nonvacuous :
   end.
 Proof. pose proof example_exact as H. destruct (srun sinit example_script); auto. apply H. Qed.
 Print Assumptions C07_nonvacuous.
+
+(* ---- the FRP level (Model/Heap.v, tied object by object to the real heap) ---- *)
+
+(* for EVERY program of the static fragment (sinks, map/filter/merge/snapshot/gate, hold, map_c, lift2..6, accum,
+   collect, defer, split, loops, listeners, any clones and drops, any history): after the program releases what it
+   holds (unlisten + drop every listener, drop every slot) ONE collection frees every object it ever allocated -
+   accumulators' and loops' cycles included *)
+Theorem C07_program_teardown_frees_all : forall ops st,
+    hrun hinit ops = Ok st ->
+    exists st' st'', hrun st (teardown st) = Ok st' /\ held st' = [] /\ hstep st' HCollect = Ok st'' /\
+      forall o, o < nobjs (g (hs st'')) -> freed (get (g (hs st'')) o) = true.
+Proof. exact program_teardown_frees_all. Qed.
+Print Assumptions C07_program_teardown_frees_all.
+
+(* non-vacuity: a CellLoop closed over a snapshot/hold cycle: 7 objects, all freed after teardown + one collection,
+   and not before *)
+Example C07_program_nonvacuous :
+  let prog := [HDef 0 PSink []; HDef 1 PCLoop []; HDef 2 PSnapshot [0; 1]; HDef 3 PHold [2]; HLoop 1 3;
+               HListen 0 2 true] in
+  match hrun hinit prog with
+  | Ok st =>
+    existsb (fun o => negb (freed (get (g (hs st)) o))) (seq 0 (nobjs (g (hs st)))) = true /\
+    match hrun st (teardown st ++ [HCollect]) with
+    | Ok st' => nobjs (g (hs st')) = 8 /\ forallb (fun o => freed (get (g (hs st')) o)) (seq 0 8) = true
+    | _ => False
+    end
+  | _ => False
+  end.
+Proof. vm_compute. repeat split; reflexivity. Qed.
+Print Assumptions C07_program_nonvacuous.
